@@ -120,8 +120,8 @@ fn convert_dockerignore_pattern(
     let mut pattern = String::from(pattern);
 
     let mut negate = false;
-    if pattern.starts_with("!") {
-        pattern = pattern.replace("!", "");
+    if let Some(negated) = pattern.strip_prefix('!') {
+        pattern = String::from(negated);
         negate = true;
     }
 
